@@ -182,6 +182,12 @@ struct SigsWrapRef<'a>(&'a Vec<ParticipantDataV4>);
 
 impl<'a> Writeable for SigsWrapRef<'a> {
 	fn write<W: Writer>(&self, writer: &mut W) -> Result<(), grin_ser::Error> {
+		// the count is a single byte: refuse a list it cannot carry instead of
+		// truncating the count (the reader would take the rest of the list for
+		// the following structures)
+		if self.0.len() > std::u8::MAX as usize {
+			return Err(grin_ser::Error::CountError);
+		}
 		writer.write_u8(self.0.len() as u8)?;
 		for s in self.0.iter() {
 			//0 means part sig is not yet included
@@ -285,6 +291,10 @@ struct ComsWrapRef<'a>(&'a Vec<CommitsV4>);
 
 impl<'a> Writeable for ComsWrapRef<'a> {
 	fn write<W: Writer>(&self, writer: &mut W) -> Result<(), grin_ser::Error> {
+		// as above, for the two byte count of the commitment list
+		if self.0.len() > std::u16::MAX as usize {
+			return Err(grin_ser::Error::CountError);
+		}
 		writer.write_u16(self.0.len() as u16)?;
 		for o in self.0.iter() {
 			//0 means input
